@@ -200,8 +200,16 @@ def all_shortest_paths(a: dict, s, e, cap: int = 8) -> list[list[tuple[int, int]
 
 
 def shortest_path(a: dict, s, e) -> list[tuple[int, int]] | None:
-    ps = all_shortest_paths(a, s, e, cap=1)
-    return ps[0] if ps else None
+    """the lexicographically first shortest path (iterative: paths may be thousands of cells long)"""
+    s, e = tuple(s), tuple(e)
+    dist_e = bfs(a, e)
+    if s not in dist_e:
+        return None
+    path = [s]
+    while path[-1] != e:
+        u = path[-1]
+        path.append(next(v for v in sorted(a[u]) if dist_e.get(v) == dist_e[u] - 1))
+    return path
 
 
 def path_problems(g: dict, a: dict, path, start=None, end=None, need_shortest=True, need_simple=True) -> str | None:
